@@ -6,6 +6,23 @@ From stdpp Require Import strings gmap sets.
 From CG Require Import Types.
 Open Scope string_scope.
 
+(* decidable equality of the tree types *)
+Global Instance konst_eq_dec : EqDecision konst. Proof. solve_decision. Defined.
+Fixpoint prim_eq_dec (x y : prim) : {x = y} + {x ≠ y}
+with unary_eq_dec (x y : unary) : {x = y} + {x ≠ y}
+with andE_eq_dec (x y : andE) : {x = y} + {x ≠ y}
+with xorE_eq_dec (x y : xorE) : {x = y} + {x ≠ y}
+with orE_eq_dec (x y : orE) : {x = y} + {x ≠ y}.
+Proof.
+  all: decide equality; try apply konst_eq_dec; apply (string_eq_dec).
+Defined.
+Global Instance prim_eqdec : EqDecision prim := prim_eq_dec.
+Global Instance unary_eqdec : EqDecision unary := unary_eq_dec.
+Global Instance andE_eqdec : EqDecision andE := andE_eq_dec.
+Global Instance xorE_eqdec : EqDecision xorE := xorE_eq_dec.
+Global Instance orE_eqdec : EqDecision orE := orE_eq_dec.
+Global Instance cond_eq_dec : EqDecision cond. Proof. solve_decision. Defined.
+
 (* list_of_module_connections: all positional or all named; `.p()` is a named connection without expression *)
 Inductive conns := Positional (ps : list cond) | Named (ps : list (string * option cond)).
 Inductive item :=
@@ -15,6 +32,9 @@ Inductive item :=
 | IInst (modname : string) (insts : list (string * conns))     (* primitive gates and blackboxes share one rule *)
 | IAssign (asg : list (string * cond)).
 Record vmodule := { m_name : string; m_ports : list string; m_items : list item }.
+Global Instance conns_eq_dec : EqDecision conns. Proof. solve_decision. Defined.
+Global Instance item_eq_dec : EqDecision item. Proof. solve_decision. Defined.
+Global Instance vmodule_eq_dec : EqDecision vmodule. Proof. solve_decision. Defined.
 
 (* ---- expressions: value under a valuation of the nets; all occurrences of 1'bx denote the same unknown x ---- *)
 Definition sem_konst (x : bool) (k : konst) : bool := match k with K0 => false | K1 => true | KX => x end.
